@@ -91,12 +91,10 @@ Fixpoint name_pos (names : list (list byte)) (n : list byte) (j : Z) : Z :=
   | m :: r => if beq m n then j else name_pos r n (j + 1)
   end.
 
-(* res := make([]int, len(cols)) indexed by column number: panics when the
-   table has more columns than distinct stored names (duplicate column names) *)
+(* res := make([]int, len(schema.Columns)); res[i] = position of column i's name *)
 Definition store_order (sc : schema) : res (list Z) :=
   let names := store_names sc in
-  if Z.of_nat (length names) <? Z.of_nat (length (s_cols sc)) then Err EPanic
-  else Ok (map (fun c => name_pos names (tc_name c) 0) (s_cols sc)).
+  Ok (map (fun c => name_pos names (tc_name c) 0) (s_cols sc)).
 
 (* toColumnIndexNonRowid *)
 Definition to_ci_nonrowid (sc : schema) (columns : list (list byte)) : res (list cidx) :=
